@@ -242,6 +242,9 @@ def main(argv):
                             "dependencies (atomic, crossbeam-utils CachePadded/Backoff, scopeguard, memoffset, std) are compiled and executed symbolically, not separately specified, except where stubbed above"]
         cov["bounded_stand_in"] = {"harnesses": bh, "obligations": n_bounded,
                                    "note": "complete for the stated size (unwinding assertions on); a bounded stand-in w.r.t. 'every size', not counted as proved without bound"}
+        cov["partial_correctness_rejections"] = {"n": len(res.get("rejections", [])),
+                                                 "list": [{"harness": r["harness"].split("::")[-1], "crate_assertion": r["name"], "at": r["where"]} for r in res.get("rejections", [])][:10],
+                                                 "meaning": "in units whose name ends in _partial the function under contract may REFUSE its input by panicking (an assertion of the crate's own code); CBMC cuts the path there, the postconditions are proved on every returning path"}
         cov["obligations_proved_without_size_bound"] = len(discharged) - len([o for o in discharged if o["harness"].split("::")[-1] in bh])
         cov.update({
             "obligations": len(obl),
